@@ -257,6 +257,7 @@ type Violation struct {
 	Obs      []string          `json:"obs,omitempty"`
 	Known    string            `json:"known,omitempty"`
 	Stack    []string          `json:"stack,omitempty"`
+	UF       map[string]int    `json:"uf,omitempty"`
 }
 
 type Sample struct {
@@ -268,6 +269,7 @@ type Sample struct {
 	PCLen   int               `json:"pc_len"`
 	PC      []string          `json:"pc,omitempty"`
 	Events  []string          `json:"events,omitempty"`
+	UF      map[string]int    `json:"uf,omitempty"`
 }
 
 type KnownFinding struct {
@@ -304,6 +306,29 @@ type Stats struct {
 	Events       map[string]int `json:"events,omitempty"`
 }
 
+type ufApp struct{ fn, arg, res string }
+
+// ufTable evaluates the recorded uninterpreted-function applications under
+// the current model: "fn(arg)" -> value (for the native replay).
+func (e *Explorer) ufTable() map[string]int {
+	if len(e.ufApps) == 0 {
+		return nil
+	}
+	var terms []string
+	for _, u := range e.ufApps {
+		terms = append(terms, u.arg, u.res)
+	}
+	vals := e.S.values(terms)
+	m := map[string]int{}
+	for i, u := range e.ufApps {
+		a := modelValueToGo(vals[2*i], "(_ BitVec 64)")
+		var r int
+		fmt.Sscanf(modelValueToGo(vals[2*i+1], "(_ BitVec 8)"), "%d", &r)
+		m[u.fn+"("+a+")"] = r
+	}
+	return m
+}
+
 type obsItem struct {
 	name string
 	term string // SMT term if symbolic
@@ -326,6 +351,8 @@ type Explorer struct {
 	sched    []int
 	obs      []obsItem
 	events   []string
+	ufApps   []ufApp
+	violated bool
 	steps    int
 	St       Stats
 	Viol     []Violation
@@ -373,6 +400,8 @@ func (e *Explorer) begin(prefix []int) {
 	e.decls = map[string]string{}
 	e.names, e.declLine, e.pc = nil, nil, nil
 	e.choices, e.sched, e.obs, e.events = nil, nil, nil, nil
+	e.ufApps = nil
+	e.violated = false
 	e.steps = 0
 	e.S.send("(push)")
 }
@@ -389,7 +418,7 @@ func (e *Explorer) end(completed bool) {
 			e.writeSummaryPath()
 		}
 		// keep a sample (with a model) for a deterministic subset of paths
-		if len(e.Samples) < e.SampleN && (e.St.Paths+e.SampleSeed)%7 == 1 || e.St.Paths == 1 {
+		if !e.violated && (len(e.Samples) < e.SampleN && (e.SampleN > 20 || (e.St.Paths+e.SampleSeed)%7 == 1) || len(e.Samples) == 0) {
 			if len(e.Samples) < e.SampleN+1 {
 				e.takeSample()
 			}
@@ -412,6 +441,7 @@ func (e *Explorer) takeSample() {
 		s.PC = append([]string{}, e.pc...)
 	}
 	s.Obs = e.evalObs()
+	s.UF = e.ufTable()
 	e.Samples = append(e.Samples, s)
 }
 
@@ -461,7 +491,29 @@ func (e *Explorer) decl(name, sort string) {
 	l := fmt.Sprintf("(declare-const %s %s)", name, sort)
 	e.declLine = append(e.declLine, l)
 	e.S.send(l)
+	if v, ok := ReplayVars[name]; ok {
+		if sort == "Bool" {
+			e.assertPC("(= " + name + " " + v + ")")
+		} else {
+			var w int
+			fmt.Sscanf(sort, "(_ BitVec %d)", &w)
+			var x int64
+			fmt.Sscanf(v, "%d", &x)
+			u := uint64(x)
+			if w < 64 {
+				u &= (1 << uint(w)) - 1
+			}
+			e.assertPC(fmt.Sprintf("(= %s (_ bv%d %d))", name, u, w))
+		}
+	}
 }
+
+// engine-side replay of a recorded path (debugging aid): variables are pinned
+// to the recorded model, symChoice follows the recorded choices.
+var ReplayVars = map[string]string{}
+var ReplayChoices []int
+var ReplayUF = map[string]int{}
+var ReplayOn bool
 
 func (e *Explorer) declFun(name, sig string) {
 	if _, ok := e.decls["fun:"+name]; ok {
@@ -618,6 +670,7 @@ func (e *Explorer) report(kind, id, msg, negCond string) {
 			v.Events = append([]string{}, e.events...)
 			// known-finding signatures are not evaluated on this path: report as new
 			e.Viol = append(e.Viol, v)
+			e.violated = true
 			return
 		}
 		e.St.Inconclusive++
@@ -671,6 +724,7 @@ func (e *Explorer) report(kind, id, msg, negCond string) {
 		e.S.send("(pop)")
 	}
 	e.Viol = append(e.Viol, v)
+	e.violated = true
 }
 
 func (e *Explorer) fillViolation(v *Violation) {
@@ -680,6 +734,7 @@ func (e *Explorer) fillViolation(v *Violation) {
 	v.Vars = e.modelVars()
 	v.Events = append([]string{}, e.events...)
 	v.Obs = e.evalObs()
+	v.UF = e.ufTable()
 	n := len(Stack)
 	for i := n - 1; i >= 0 && i > n-8; i-- {
 		v.Stack = append(v.Stack, Stack[i])
